@@ -771,6 +771,53 @@ def check_real_log_density(run, A):
     run.floor('log-density results examined for being real valued', n, 6)
 
 
+def check_factorised_matrix(run, A):
+    """the cached factor and log-determinant of the Gaussian families are those of the STORED covariance: what is handed to the factorisation (scikit-learn's
+    _compute_precision_cholesky, or cholesky / inv / slogdet) is self.covariance itself, reshaped at most.  A loaded / scaled / clipped copy gives a proper density -
+    of another Gaussian than the one the parameters name."""
+    n = 0
+    for cname in ('Gaussian', 'DiagonalGaussian', 'SphericalGaussian'):
+        q = f'{D}gaussian::{cname}.__post_init__'
+        try:
+            fn = A.prog.func(q)
+        except Exception:
+            continue
+        g = A.graphs.get(fn)
+        for e in g.events:
+            if e.kind != 'call':
+                continue
+            nm = call_parts(e.term)[0] or ''
+            if not (nm.endswith('_compute_precision_cholesky') or nm in ('numpy.linalg.cholesky', 'scipy.linalg.cholesky', 'numpy.linalg.slogdet', 'numpy.linalg.inv', 'numpy.linalg.det')):
+                continue
+            arg = call_arg(e.term, 0)
+            if arg is None or not data_derives(arg, 'self'):
+                continue
+            if is_call_to(strip_views(arg), 'numpy.linalg.cholesky', 'scipy.linalg.cholesky', 'numpy.linalg.inv', 'scipy.linalg.inv') or \
+                    (call_parts(strip_views(arg))[0] or '').endswith('_compute_precision_cholesky'):
+                continue          # inv(cholesky(c)): the inner call is the one that sees the matrix
+            # follow value-preserving steps only
+            t = strip_views(arg)
+            for _ in range(10):
+                if is_call_to(t, 'numpy.reshape', 'numpy.asarray', 'numpy.array', 'numpy.ascontiguousarray', 'numpy.copy', 'numpy.broadcast_to', 'numpy.atleast_1d', 'numpy.atleast_2d'):
+                    t = strip_views(call_arg(t, 0))
+                    continue
+                if t.op == 'sub' and newaxis_only(t):
+                    t = strip_views(t.args[0])
+                    continue
+                break
+            n += 1
+            ok = self_field(t, 'covariance')
+            run.check(ok, 'R-DEP', f'{cname}.__post_init__: the matrix that is factorised is the stored covariance', fn.loc(e.term.node), '',
+                      f'`{norm_stmt(e.term.node)[:90]}` factorises something else than self.covariance (reshaped at most): the cached precision factor / log-determinant belong to '
+                      f'another covariance than the one the model stores and reports', construct=f'R-DEP::{q}::factorised-matrix')
+    run.floor('factorisations of the stored covariance', n, 3)
+
+
+def newaxis_only(t):
+    from ..walk import newaxis_insertions
+    return newaxis_insertions(t) is not None
+
+
 def check(run):
     A = run.A
     run.explanation = (
@@ -788,6 +835,7 @@ def check(run):
     check_cacg(ck)
     close_terms(ck)
     check_real_log_density(run, A)
+    check_factorised_matrix(run, A)
     # generic sesquilinear rule on every einsum of the density files
     n = 0
     for s in ein.enumerate_sites(A):
